@@ -90,6 +90,33 @@ CHECKS["C11"] = (MC,
     "generic and notebook differs return (exhaustive universe cross product + random + notebook pairs) and on the local/remote/custom "
     "diffs of every decision relative to the sub-document addressed by the decision's path.", MERGE_NOTE, "DESIGN.md §5 C11")
 
+CHECKS["C08"] = (MC,
+    "TLC model checking of MergeCmd.tla (every step of nbmerge / git-nbmergedriver, Raise and Kill faults at every step boundary) + "
+    "replay of every terminal scenario as a real subprocess with the fault injected (harness/faultdriver.py)",
+    "The command is an explicit state machine; TLC checks exit-zero-iff-no-conflict, finished-leaves-complete-result, faults-never-succeed "
+    "and early-fault-leaves-output-untouched on the whole graph and emits every terminal state. Each scenario (mode x input shape x "
+    "conflict x fault step/kind/write index) is executed for real; the observed (exit class, output class) must be allowed by the "
+    "model, and a finished run's output must equal the library merge (type-aware JSON comparison).",
+    "Trusted: fault injection by wrapping the module-level names main_merge uses; output classification by byte comparison with the "
+    "fault-free run. Faults inside C code / a single write(2) are out of reach.", "DESIGN.md §5 C08")
+CHECKS["C12"] = (MC,
+    "TLC enumeration of all histories of Process.tla (ignore-configuration operations and diff/merge calls) replayed in pristine "
+    "interpreters; state projection compared with the model after every step; every result compared with a pristine interpreter "
+    "in the same model state",
+    "The only state a diff may depend on is the ignore table; TLC enumerates every history up to length 3 (quick) / 4 (thorough) and "
+    "checks purity/reset properties on the model; each history is replayed in a fork of a pristine parent, the real differ table is "
+    "projected onto the model state after each step, and each call's result must equal that of a pristine interpreter configured "
+    "canonically into the same state.",
+    "Trusted: fork of an import-only parent == fresh interpreter; projection reads closure cells of the ignore wrappers.", "DESIGN.md §5 C12")
+CHECKS["C18"] = (MC,
+    "TLC model checking of GitConfig.tla (commands as total functions on the per-scope configuration; Idempotent, ForeignUntouched, "
+    "EnableAddsOnlyOwn, DisableUnroutes) + replay of TLC-simulated behaviours against real git with state projection after every step",
+    "All initial configurations of the property's quantifier and all command sequences up to the bound are model checked; simulated "
+    "behaviours are executed through the real entry points in scratch repositories with a private HOME, the files git reads are "
+    "projected back to the model state after every command, each command is run twice, and git check-attr confirms routing.",
+    "Trusted: projection via git config --file; --system scope not covered; jinja2/jupyter_server stubs for importing the tools.",
+    "DESIGN.md §5 C18")
+
 NOT_YET = {}
 
 PROPS = [json.loads(l)["id"] for l in open(os.path.join(VERIF, "properties.jsonl"))]
